@@ -200,8 +200,10 @@ def inverse_rules(repo, rep):
         rep.undecided('R-FORMULA', base + 'shape', w, 'xyz2llh does not evaluate to a triple')
         return
     lat, lon, h = val.items
-    check_equal(rep, 'R-FORMULA', base + 'lon', w, lon, alg.degrees(alg.atan2(Rat.sym('y'), Rat.sym('x'))),
-                'longitude = degrees(atan2(y, x)) (range [-180, 180] by the range of atan2)')
+    # compared as an angle: choosing +180 for -180 (one representative of the anti-meridian) is the same longitude, still inside [-180, 180]
+    from ..symcheck import strip_turn_folds
+    check_equal(rep, 'R-FORMULA', base + 'lon', w, strip_turn_folds(lon), alg.degrees(alg.atan2(Rat.sym('y'), Rat.sym('x'))),
+                'longitude = degrees(atan2(y, x)) (range [-180, 180] by the range of atan2; modulo a full turn)')
     loops = ev.loops.get(f.key, [])
     orc = Oracle(ORACLE)
     a, e2 = E.fields['semimaj'], E.fields['ecc1sq']
@@ -434,6 +436,8 @@ def run(repo, rep):
     common.typecheck_rules(repo, rep)
     common.state_rule(repo, rep, [('geodepy.convert', 'llh2xyz'), ('geodepy.convert', 'xyz2llh')])
     common.ellipsoid_rules(repo, rep, projections=False)
+    # observed through CoordCart.geo as well: the returned latitude / longitude must be of the type the coordinate classes accept
+    common.float_result_rule(repo, rep, 'geodepy.convert', 'xyz2llh', (0, 1))
     rep.trust('sv/alg.py exact normal forms; generator independence modulo the rewrite rules applied')
     rep.trust('closed-form geodetic/Cartesian equations (GDA2020 technical manual section 4.1)')
     tr = ThreadRule(repo, rep)
